@@ -6,6 +6,7 @@ Run:  lake exe driver < ops.txt     (or `lake env lean --run Driver.lean`)
 import Smpl.Drv.Codec
 import Smpl.Drv.Filter
 import Smpl.Drv.Alloc
+import Smpl.Drv.Stream
 open Smpl.Drv
 
 def dispatch (line : String) : String :=
@@ -13,6 +14,7 @@ def dispatch (line : String) : String :=
   | "codec" :: rest => codecOp rest
   | "filter" :: rest => filterOp rest
   | "fat" :: rest => allocOp rest
+  | "stream" :: rest => streamOp rest
   | _ => "bad-op"
 
 partial def loop (hin hout : IO.FS.Stream) : IO Unit := do
